@@ -50,7 +50,7 @@ func closuresWhere(fn *ssa.Function, pred func(*ssa.Function) bool) []*ssa.Funct
 }
 
 func storesField(g *ssa.Function, f *types.Var, valPred func(ssa.Value) bool) bool {
-	for _, b := range g.Blocks {
+	for _, b := range an.ScanBlocks(g) {
 		for _, ins := range b.Instrs {
 			if v, _, ok := storeTo(ins, f); ok && (valPred == nil || valPred(v)) {
 				return true
@@ -75,7 +75,7 @@ func isTrueConst(v ssa.Value) bool {
 func typeAssertSet(fns []*ssa.Function, prefix string) []string {
 	set := map[string]bool{}
 	for _, fn := range fns {
-		for _, b := range fn.Blocks {
+		for _, b := range an.ScanBlocks(fn) {
 			for _, ins := range b.Instrs {
 				if ta, ok := ins.(*ssa.TypeAssert); ok {
 					t := ta.AssertedType
@@ -242,7 +242,7 @@ func serverHandlers(c *an.Check) *srvHandlers {
 	byField := func(field string) *ssa.Function {
 		var found []*ssa.Function
 		for _, g := range an.WithClosures(h.sess) {
-			for _, b := range g.Blocks {
+			for _, b := range an.ScanBlocks(g) {
 				for _, ins := range b.Instrs {
 					call, ok := ins.(*ssa.Call)
 					if !ok || call.Call.IsInvoke() || call.Call.StaticCallee() != nil && call.Call.StaticCallee().Parent() == nil {
@@ -419,7 +419,7 @@ func c20(c *an.Check) {
 			Sink: func(s *an.State, ins ssa.Instruction) bool { return an.IsCallTo(ins, keyCallee) },
 			Reqs: []an.Req{
 				{Name: "identity of the stream determined", Holds: func(s *an.State, at ssa.Instruction) bool {
-					for _, b := range h.sess.Blocks {
+					for _, b := range an.ScanBlocks(h.sess) {
 						for _, ins := range b.Instrs {
 							if call, ok := ins.(*ssa.Call); ok && an.IsFieldLoad(call.Call.Value, identF) {
 								if e := an.ErrResult(call, -1); e != nil && s.IsNil(e) {
@@ -493,7 +493,7 @@ func noLockLeak(c *an.Check) {
 		}
 		for _, g := range an.WithClosures(fn) {
 			has := false
-			for _, b := range g.Blocks {
+			for _, b := range an.ScanBlocks(g) {
 				for _, ins := range b.Instrs {
 					if lockCall(ins, "Lock") {
 						has = true
@@ -505,7 +505,7 @@ func noLockLeak(c *an.Check) {
 			}
 			// may-hold dataflow: bit 1 = "may be held", bit 2 = "may be released"; a deferred Unlock anywhere covers all returns
 			deferred := false
-			for _, b := range g.Blocks {
+			for _, b := range an.ScanBlocks(g) {
 				for _, ins := range b.Instrs {
 					if d, ok := ins.(*ssa.Defer); ok {
 						if fo := an.CallObj(&d.Call); fo != nil && fo.Name() == "Unlock" && len(d.Call.Args) > 0 {
@@ -522,7 +522,7 @@ func noLockLeak(c *an.Check) {
 			changed := true
 			for changed {
 				changed = false
-				for _, b := range g.Blocks {
+				for _, b := range an.ScanBlocks(g) {
 					st := in[b]
 					for _, pr := range b.Preds {
 						st |= out[pr]
@@ -546,7 +546,7 @@ func noLockLeak(c *an.Check) {
 				}
 			}
 			nRet, bad := 0, ""
-			for _, b := range g.Blocks {
+			for _, b := range an.ScanBlocks(g) {
 				ret, ok := b.Instrs[len(b.Instrs)-1].(*ssa.Return)
 				if !ok {
 					continue
@@ -729,7 +729,7 @@ func c21(c *an.Check) {
 			},
 			Reqs: []an.Req{
 				{Name: "the application already received it (recvProcessed)", Holds: func(s *an.State, at ssa.Instruction) bool {
-					for _, b := range mainLit.Blocks {
+					for _, b := range an.ScanBlocks(mainLit) {
 						for _, ins := range b.Instrs {
 							if u, ok := ins.(*ssa.UnOp); ok && an.IsFieldLoad(u, recvProcF) && s.IsTrue(u) {
 								return true
@@ -783,7 +783,7 @@ func clientEpochReset(c *an.Check) {
 	}
 	var lits []*ssa.Function
 	for _, g := range an.WithClosures(ex) {
-		for _, b := range g.Blocks {
+		for _, b := range an.ScanBlocks(g) {
 			for _, ins := range b.Instrs {
 				if isOpenStore(ins) {
 					lits = append(lits, g)
